@@ -696,3 +696,12 @@ add('c06-noise-clamp-in-base-units', ['C06', 'C14'], 'fire', 'Unit.convert',
     'return Unit.convert_from(substance, value, quantity_unit, unit)',
     'if abs(value) < 10 ** (-config.internal_precision):\n        value = 0.0\n    return Unit.convert_from(substance, value, quantity_unit, unit)',
     'the internal precision counts digits of storage units, the parsed value is in base units')
+add('c03-amount-sign-gate-dropped', ['C03'], 'fire', 'Container._self_add',
+    'round(volume_to_add, config.internal_precision) < 0 or round(amount_to_add, config.internal_precision) < 0',
+    'round(volume_to_add, config.internal_precision) < 0',
+    'a negative amount of a substance that takes no volume is stored')
+add('c10-dilute-on-a-shallow-copy', ['C10', 'C04'], 'fire', 'Container.dilute',
+    'result = destination._add(solvent, needed_umoles)', 'result = copy(destination)\n    result._self_add(solvent, needed_umoles)',
+    'the copy shares the contents dictionary with the original')
+add('c02-total-kept-as-cached-property', ['C02', 'C10'], 'fire', 'Container.has_liquid',
+    '@cache', '@cached_property', 'kept in the instance dictionary and copied with the object')
